@@ -327,7 +327,7 @@ impl Check for C13 {
 
     fn gen(&self, seed: u64, spec_seed: u64, tier: Tier) -> Case {
         let mut rng = Rng::new(seed);
-        let spec = cases::spec_for(spec_seed, &SpecOpts::default());
+        let spec = cases::spec_for(spec_seed, &SpecOpts { shapes: true, ..Default::default() });
         if rng.chance(3, 5) {
             for _ in 0..4 {
                 if let Some((bytes, fi, lim)) = make_fault(&mut rng, &spec, tier) {
